@@ -43,7 +43,8 @@ class C15(Plugin):
     rule = ("case = (prefix without ':', identifier, name, two more (prefix, identifier) pairs, a separator, an arbitrary string to parse, an "
             "optional converter as validation context); identifiers empty / with colons / CR / LF / tab / quotes / commas / backslash / Unicode. "
             "Observed on ReferenceTuple, Reference, NamableReference, NamedReference: curie, from_curie round trip, from_curie with another "
-            "separator, string validation, JSON round trip, the 4x4 equality matrix, name-independence, hash agreement, '<' on all ordered pairs and "
+            "separator, string validation, JSON round trip, the 4x4 equality matrix, name-independence, hash agreement (on instances of five provenances: constructor, "
+            "model_copy(update) of a used instance with another pair, deepcopy, pickle, model_copy), '<' on all ordered pairs and "
             "sorted(), setattr failing, validation against the converter, write_triples / read_triples round trip on a real file. "
             "Non-trivial: the identifier contains a separator, CR/LF/tab/quote, or a converter context is used.")
     assumptions = ["pydantic (frozen models, JSON, validation errors) and csv / file I/O are runtime: exercised, not modelled",
